@@ -1018,7 +1018,8 @@ def _prefixscan_combine(func, binop, pre, x, axis, dtype):
     # We could compute this in two tasks.
     # This would allow us to do useful work (i.e., func), while waiting on `pre`.
     # Using one task may guide the scheduler to do better and reduce scheduling overhead.
-    return binop(pre, func(x, axis=axis, dtype=dtype))
+    # (``pre`` was reduced in the input's dtype: keep the requested one)
+    return binop(pre, func(x, axis=axis, dtype=dtype)).astype(dtype, copy=False)
 
 
 def _prefixscan_first(func, x, axis, dtype):
